@@ -19,7 +19,7 @@ func verifID(label string, max int) string {
 }
 
 var verifTypes = []string{"Patient", "List", "Observation", "MedicationRequest"}
-var verifBases = []string{"", "http://h", "https://example.org:8080/fhir/r4", "http://a.b/c"}
+var verifBases = []string{"", "http://h", "http://a.com/my_fhir-1", "https://example.org:8080/fhir/r4", "http://a.b/c"}
 
 // C19: formatting an identity as a literal reference URI and parsing it back returns the same components, and the
 // canonical form equals the input (no redundant slashes), for relative, absolute and versioned forms.
@@ -50,6 +50,9 @@ func VerifHarness_C19_LiteralRoundTrip() {
 	verifrt.Assert(string(ident.Type()) == typ && ident.ID() == id && v == version && hasV == (version != ""), "parse-returns-the-formatted-components")
 	verifrt.Assert(lit.ServiceBaseURL() == base, "service-base-url-is-recovered")
 	verifrt.Assert(lit.URIString() == uri, "canonical-form-equals-the-input")
+	// the base that parsing recovered is a base that formatting accepts
+	same, errB := lit.WithServiceBaseURL(lit.ServiceBaseURL())
+	verifrt.Assert(errB == nil && same != nil && same.URIString() == uri, "recovered-service-base-url-is-accepted-back")
 	// parse - format - parse
 	again, err2 := LiteralInfoFromURI(lit.URIString())
 	ok2 := err2 == nil && again != nil
@@ -174,7 +177,9 @@ func VerifHarness_C19_EveryResourceType() {
 // and compare as the same reference - for the resource types whose names exercise the member-name decoding
 // (one, two and three words; names ending in letters of "_id").
 func VerifHarness_C19_StrongAndWeakAgree() {
-	id := []string{"a1", "x"}[verifrt.Choose("id", 2)]
+	// an arbitrary id (well-formed or not: both forms accept the same ids)
+	id := verifrt.NondetString("id", 2)
+	verifrt.Assume(len(id) > 0)
 	rid := &dtpb.ReferenceId{Value: id}
 	var strong *dtpb.Reference
 	typ := ""
@@ -200,8 +205,15 @@ func VerifHarness_C19_StrongAndWeakAgree() {
 	weak := &dtpb.Reference{Reference: &dtpb.Reference_Uri{Uri: &dtpb.String{Value: typ + "/" + id}}}
 	is, err := IdentityOf(strong)
 	iw, err2 := IdentityOf(weak)
-	verifrt.Assert(err == nil && err2 == nil, "both-forms-have-an-identity")
+	verifrt.Assert((err == nil) == (err2 == nil), "both-forms-accept-the-same-ids")
+	wellFormed := true
+	for i := 0; i < len(id); i++ {
+		c := id[i]
+		wellFormed = wellFormed && ((c >= 'A' && c <= 'Z') || (c >= 'a' && c <= 'z') || (c >= '0' && c <= '9') || c == '-' || c == '.')
+	}
+	verifrt.Assert((err == nil) == wellFormed, "an-identity-exactly-for-well-formed-ids")
 	if err != nil || err2 != nil {
+		verifrt.Reach("rejected")
 		return
 	}
 	verifrt.Assert(is.Type() == iw.Type() && is.ID() == iw.ID(), "strong-and-weak-name-the-same-resource")
